@@ -17,6 +17,7 @@ CONSTANTS Mode, MaxTerms, EmitBelow, ChainLen, Seeds, Idx, Hid, Msg
 
 IdxAll   == {<<>>, <<1>>, <<128, 0, 0, 0>>, <<255, 255, 255, 255>>}      \* 0, 1, 2^31, 2^32-1
 IdxQuick == {<<1>>, <<128, 0, 0, 0>>}
+IdxOne   == {<<128, 0, 0, 0>>}
 IdxTwo   == {<<>>, <<1>>, <<128, 0, 0, 0>>}
 PoolIdx  == {<<>>, <<1>>, <<39, 15>>}                                     \* 0, 1, 9999
 
@@ -66,8 +67,9 @@ RECURSIVE ChainPk(_, _)
 ChainPk(ch, k) == IF k = 0 THEN PubT(S1) ELSE StepPk(ChainPk(ch, k - 1), ch[k])
 RECURSIVE Subterms(_)
 Subterms(t) == IF t.op = "nil" THEN {} ELSE {t} \cup Subterms(t.a) \cup Subterms(t.b)
+Closure(X) == UNION {Subterms(t) : t \in X}
 Diagram(ch) == LET L == Len(ch) top == ChainSk(ch, L) IN
-  Subterms(PubT(top)) \cup Subterms(ChainPk(ch, L)) \cup {SignT(top, "m1"), SignT(SerT(top), "m1")}
+  Closure({PubT(top), ChainPk(ch, L), SignT(top, "m1"), SignT(SerT(top), "m1")})
 Chains == UNION {[1..L -> ChainOps] : L \in 1..ChainLen}
 
 \* ---- paths: helper next to the iterated derivation
@@ -89,43 +91,60 @@ PathDiagrams ==
   \cup {Subterms(T1b("pa", S1, pw, i)) \cup Subterms(It(S1, <<I12381, I8444, I6, PoolAuthIndex(pw, i)>>, TRUE))
      \cup {T1b("pa", S1, i, pw)} : pw \in PoolIdx, i \in PoolIdx}
 
-VARIABLE S
-Init == CASE Mode = "explore" -> S = Base
-          [] Mode = "compose" -> \E ch \in Chains : S = Diagram(ch)
-          [] Mode = "paths" -> S \in PathDiagrams
+\* further diagrams whose point is a predicted DIFFERENCE (the tweak depends on the parent key, hardened children
+\* are unrelated to unhardened ones, derivation steps do not commute with each other, messages separate signatures)
+CrossDiagrams ==
+  {{AddSk(Dsk(S1, n), S2), AddSk(S1, Dsk(S2, n)), AddPk(Dpk(PubT(S1), n), PubT(S2)), AddPk(PubT(S1), Dpk(PubT(S2), n)),
+    PubT(AddSk(Dsk(S1, n), S2)), PubT(AddSk(S1, Dsk(S2, n)))} : n \in Idx}
+  \cup {{AddSk(SynSk(S1, h), S2), AddSk(S1, SynSk(S2, h)), AddPk(SynPk(PubT(S1), h), PubT(S2)), AddPk(PubT(S1), SynPk(PubT(S2), h)),
+    PubT(AddSk(SynSk(S1, h), S2)), SynSk(S1, "H2"), SynPk(PubT(S1), "DX")} : h \in Hid}
+  \cup {{Hard(S1, n), Dsk(S1, n), PubT(Hard(S1, n)), Dpk(PubT(S1), n), Hard(S2, n), Hard(Hard(S1, n), n), Hard(SerT(S1), n)} : n \in Idx}
+  \cup {{Dsk(Dsk(S1, n), m), Dsk(Dsk(S1, m), n), Dpk(Dpk(PubT(S1), n), m), Dpk(Dpk(PubT(S1), m), n), SynSk(Dsk(S1, n), "D"), Dsk(SynSk(S1, "D"), n),
+    SynPk(Dpk(PubT(S1), n), "D")} : n \in Idx, m \in Idx}
+  \cup {{SignT(S1, "m1"), SignT(S1, "m2"), SignT(S2, "m1"), SignT(AddSk(S1, S2), "m1"), SignT(AddSk(S2, S1), "m1"), SerT(SignT(S1, "m1")),
+    SignT(Dsk(S1, <<1>>), "m1"), SerT(PubT(S1)), SerT(S1)}}
+
+VARIABLES S, phase
+Init == /\ CASE Mode = "explore" -> S = Base
+             [] Mode = "compose" -> \E ch \in Chains : S = Diagram(ch)
+             [] Mode = "paths" -> \E D \in PathDiagrams \cup CrossDiagrams : S = Closure(D)
+        /\ phase = IF Mode = "explore" THEN 1 ELSE 0
 Extra == IF Mode = "explore" THEN Cardinality(S) - Cardinality(Base) ELSE 0
 InitSize == Cardinality(S)
-Next == /\ Mode = "explore"
-        /\ Extra < MaxTerms
-        /\ \E t \in Candidates(S) \ S : S' = S \cup {t}
+\* (the laws of non-explore modes are evaluated in the successor state so that TLC's workers share the work)
+Next == \/ /\ Mode = "explore"
+           /\ Extra < MaxTerms
+           /\ \E t \in Candidates(S) \ S : S' = S \cup {t}
+           /\ UNCHANGED phase
+        \/ phase = 0 /\ phase' = 1 /\ UNCHANGED S
 
 \* ------------------------------------------------------------ theorems --
-Closed == \A t \in S : t.a \in S \cup {NilT} /\ t.b \in S \cup {NilT}
-Typed == \A t \in S : WellTyped(t.op, NF(t.a), NF(t.b))
+Closed == phase = 0 \/ \A t \in S : t.a \in S \cup {NilT} /\ t.b \in S \cup {NilT}
+Typed == phase = 0 \/ \A t \in S : WellTyped(t.op, NF(t.a), NF(t.b))
 \* Pub o DeriveSk = DerivePk o Pub
-CommuteDerive == \A a \in SkT(S), n \in Idx : NF(PubT(Dsk(a, n))) = NF(Dpk(PubT(a), n))
+CommuteDerive == phase = 0 \/ \A a \in SkT(S), n \in Idx : NF(PubT(Dsk(a, n))) = NF(Dpk(PubT(a), n))
 \* Pub o Synthetic = Synthetic o Pub
-CommuteSynthetic == \A a \in SkT(S), h \in Hid : NF(PubT(SynSk(a, h))) = NF(SynPk(PubT(a), h))
+CommuteSynthetic == phase = 0 \/ \A a \in SkT(S), h \in Hid : NF(PubT(SynSk(a, h))) = NF(SynPk(PubT(a), h))
 \* Pub(a + b) = Pub(a) + Pub(b); addition is commutative
-CommuteAdd == \A a, b \in SkT(S) : /\ NF(PubT(AddSk(a, b))) = NF(AddPk(PubT(a), PubT(b)))
+CommuteAdd == phase = 0 \/ \A a, b \in SkT(S) : /\ NF(PubT(AddSk(a, b))) = NF(AddPk(PubT(a), PubT(b)))
                                    /\ NF(AddSk(a, b)) = NF(AddSk(b, a))
 \* serialise / parse is the identity; signing is a function of (key value, message)
-SerIdentity == \A t \in S : NF(SerT(t)) = NF(t)
-SignDeterministic == \A a, b \in SkT(S), m \in Msg : NF(a) = NF(b) => NF(SignT(a, m)) = NF(SignT(b, m))
-SignSeparates == \A a, b \in SkT(S), m1, m2 \in Msg : NF(SignT(a, m1)) = NF(SignT(b, m2)) => NF(a) = NF(b) /\ m1 = m2
+SerIdentity == phase = 0 \/ \A t \in S : NF(SerT(t)) = NF(t)
+SignDeterministic == phase = 0 \/ \A a, b \in SkT(S), m \in Msg : NF(a) = NF(b) => NF(SignT(a, m)) = NF(SignT(b, m))
+SignSeparates == phase = 0 \/ \A a, b \in SkT(S), m1, m2 \in Msg : NF(SignT(a, m1)) = NF(SignT(b, m2)) => NF(a) = NF(b) /\ m1 = m2
 \* taking the public key loses nothing; hardened children are unrelated to unhardened ones
-PubInjective == \A a, b \in SkT(S) : NF(PubT(a)) = NF(PubT(b)) => NF(a) = NF(b)
-HardenedFresh == \A a \in SkT(S), n \in Idx : NF(Hard(a, n)) # NF(Dsk(a, n)) /\ NF(PubT(Hard(a, n))) # NF(Dpk(PubT(a), n))
-IndexSeparates == \A a \in SkT(S), n, m \in Idx : n # m => NF(Dsk(a, n)) # NF(Dsk(a, m))
+PubInjective == phase = 0 \/ \A a, b \in SkT(S) : NF(PubT(a)) = NF(PubT(b)) => NF(a) = NF(b)
+HardenedFresh == phase = 0 \/ \A a \in SkT(S), n \in Idx : NF(Hard(a, n)) # NF(Dsk(a, n)) /\ NF(PubT(Hard(a, n))) # NF(Dpk(PubT(a), n))
+IndexSeparates == phase = 0 \/ \A a \in SkT(S), n, m \in Idx : n # m => NF(Dsk(a, n)) # NF(Dsk(a, m))
 \* the path helpers are iterated derivation with the documented constants and commute with Pub
-PathLaw == \A a \in SkT(S), n \in Idx :
+PathLaw == phase = 0 \/ \A a \in SkT(S), n \in Idx :
   /\ NF(T1("wu_sk", a, "", n)) = NF(Dsk(Dsk(Dsk(Dsk(a, I12381), I8444), I2), n))
   /\ NF(PubT(T1("wu_sk", a, "", n))) = NF(T1("wu_pk", PubT(a), "", n))
   /\ NF(T1("wu_sk", a, "", n)) = NF(Dsk(T1("wui_sk", a, "", <<>>), n))
   /\ NF(T1("wh", a, "", n)) = NF(Hard(Hard(Hard(Hard(a, I12381), I8444), I2), n))
   /\ NF(T1("ps", a, "", n)) = NF(Hard(Hard(Hard(Hard(a, I12381), I8444), I5), n))
   /\ NF(T1("wh", a, "", n)) # NF(T1("ps", a, "", n))
-PoolAuthLaw == \A a \in SkT(S), pw, i \in PoolIdx :
+PoolAuthLaw == phase = 0 \/ \A a \in SkT(S), pw, i \in PoolIdx :
   NF(T1b("pa", a, pw, i)) = NF(Hard(Hard(Hard(Hard(a, I12381), I8444), I6), Add(MulSmall(pw, 10000), i)))
 
 \* ----------------------------------------------------------- emission --
@@ -134,8 +153,8 @@ SetToSeq(X) == LET RECURSIVE G(_)
                IN G(X)
 \* a store is interesting when two different routes (not merely a serialisation round trip) meet
 Interesting == \E t, u \in S : t # u /\ t.op # "ser" /\ u.op # "ser" /\ NF(t) = NF(u)
-Final == IF Mode = "explore" THEN Extra = MaxTerms \/ Extra < EmitBelow ELSE TRUE
-Emit == (Final /\ (Interesting \/ Extra < EmitBelow)) =>
+Final == phase = 1 /\ (IF Mode = "explore" THEN Extra = MaxTerms \/ Extra < EmitBelow ELSE TRUE)
+Emit == (Final /\ (Interesting \/ Extra < EmitBelow \/ Mode # "explore")) =>
   LET seq == SetToSeq(S)
       vals == [i \in DOMAIN seq |-> NF(seq[i])]
   IN PrintT(<<"CASE", ToJson([k |-> "terms", mode |-> Mode, terms |-> seq, cls |-> Classes(vals)])>>)
